@@ -38,6 +38,34 @@ func runC19(c *Ctx) {
 	c.Rule("C19.TRUNC", "FLOW: the row limit keeps a prefix of the last batch: NewSlice(0, cap - rows so far)")
 	c.Rule("C19.UNIT", "FLOW: every Timestamp.ToTime(unit) uses the unit of that column's own TimestampType")
 
+	// ---- CAST: narrowing casts of result columns are checked
+	c.Rule("C19.CAST", "WHO+FLOW: every compute.CastArray applied to a result column in internal/api gets its options from compute.SafeCastOptions (a checked cast: a decimal that does not fit the int64/float64 target is an error, not a truncated number), and nothing in internal/api calls UnsafeCastOptions or builds CastOptions with the Allow* overflow/truncate switches set")
+	{
+		nCast := 0
+		for _, fn := range p.FuncsIn("internal/api") {
+			for _, call := range callsIn(fn, true) {
+				nm := callName(call)
+				switch {
+				case strings.HasSuffix(nm, "/compute.UnsafeCastOptions"):
+					c.Bad("C19.CAST", fn.Name()+"|unsafe-cast-options", call.Pos(), "%s casts a result column with UnsafeCastOptions: a scale-0 decimal / HUGEINT outside the int64 range keeps only its low 64 bits, and the response carries a different number under a success status (18446744073709551621 comes back as 5)", fn.Name())
+				case strings.HasSuffix(nm, "/compute.CastArray") || strings.HasSuffix(nm, "/compute.CastDatum") || strings.HasSuffix(nm, "/compute.CastToType"):
+					nCast++
+					args := call.Common().Args
+					opt := args[len(args)-1]
+					safe := derives(opt, func(v ssa.Value) bool {
+						cl, ok := v.(*ssa.Call)
+						return ok && strings.HasSuffix(callName(cl), "/compute.SafeCastOptions")
+					}, false, 4)
+					if strings.HasSuffix(nm, "CastToType") {
+						safe = true // CastToType(ctx, val, toType) is the checked form by definition
+					}
+					c.Check(safe, "C19.CAST", fmt.Sprintf("%s|cast#%d-checked", fn.Name(), nCast), call.Pos(), "cast options come from SafeCastOptions", fn.Name()+" casts a result column with options that do not come from compute.SafeCastOptions: out-of-range values are truncated instead of reported")
+				}
+			}
+		}
+		c.Check(nCast >= 1, "C19.CAST", "internal/api|cast-sites", 0, fmt.Sprintf("%d cast site(s) inspected", nCast), "no result-column cast found (rule needs review)")
+	}
+
 	// ---- BYTES
 	c.Rule("C19.BYTES", "FLOW: no cell writer hands writeJSONString a string converted from a byte slice — binary data is not text, and raw bytes >= 0x80 make the JSON body undecodable; and the binary writer emits, for every byte outside printable ASCII (and for backslash and quotes), an escape built from that byte")
 	for _, name := range []string{"internal/api.writeArrowValue", "internal/api.writeJSONValue"} {
